@@ -466,6 +466,13 @@ func rsAbstractRollout(ro *v1beta1.Rollout, in rsRollout, hash string) rsRollout
 func rsPhaseStr(p string) string { return p }
 
 func rsRun(in0 rsWorld) interface{} {
+	out, _, _, _ := rsRunF(in0, 0)
+	return out
+}
+
+// rsRunF: one real Reconcile; failN > 0 makes the failN-th API call of the reconcile (reads included) fail.
+// Returns the usual output, the number of API calls the reconcile made, the failed call ("" if none) and its writes.
+func rsRunF(in0 rsWorld, failN int) (J, int, string, []string) {
 	in := rsdConcretise(in0) // canary-style worlds: revision names become the pod-template hashes the finder reports
 	ro, hash := rsBuildRollout(in.Ro)
 	objs := []client.Object{ro}
@@ -483,7 +490,10 @@ func rsRun(in0 rsWorld) interface{} {
 	old := rolloutctl.VerifSetGracePeriodSeconds(trLongGrace)
 	defer rolloutctl.VerifSetGracePeriodSeconds(old)
 	rec := rolloutctl.VerifNewReconciler(netCli, theScheme)
+	netCli.Calls, netCli.FailCallN, netCli.FaultHit = 0, failN, ""
 	res, err := rec.Reconcile(context.TODO(), ctrl.Request{NamespacedName: types.NamespacedName{Namespace: trNS, Name: "r"}})
+	netCli.FailCallN = 0
+	calls, hit := netCli.Calls, netCli.FaultHit
 	out := J{"requeue": res.RequeueAfter > 0 || res.Requeue, "err": err != nil}
 	if finderDiff != "" {
 		out["finderMismatch"] = finderDiff // the concretised workload is not the generated one: shows up as a difference
@@ -523,11 +533,46 @@ func rsRun(in0 rsWorld) interface{} {
 		if r.Err {
 			continue
 		}
-		writes = append(writes, r.Verb+" "+r.Kind)
+		writes = append(writes, r.Verb+" "+r.Kind+" "+r.Key)
 	}
-	_ = writes
 	grace.ResetExpectations()
-	return out
+	return out, calls, hit, writes
+}
+
+// rsFaults: C06 at the level of one Rollout reconcile, judged on the implementation alone (the one-step model has no
+// fault parameter): the same world is reconciled once undisturbed and then once per chosen call index k with the k-th API
+// call (a read or a write) failing.  Emitted per k: whether the failure was reported (error returned = the request is
+// retried), and the writes of the disturbed reconcile next to those of the undisturbed one.
+func rsFaults(c *Ctx, in rsWorld, all bool) {
+	var calls int
+	var baseWrites []string
+	var base J
+	if r := guard(func() interface{} {
+		o, n, _, w := rsRunF(in, 0)
+		base, calls, baseWrites = o, n, w
+		return nil
+	}); r != nil {
+		return // the undisturbed reconcile panics: that is the reconcile op's business
+	}
+	if calls == 0 || base["err"] == true {
+		return
+	}
+	ks := []int{}
+	if all || calls <= 3 {
+		for k := 1; k <= calls; k++ {
+			ks = append(ks, k)
+		}
+	} else {
+		ks = append(ks, 1+c.Rng.Intn(calls), 1+c.Rng.Intn(calls), calls)
+	}
+	for _, k := range ks {
+		k := k
+		impl := guard(func() interface{} {
+			o, _, hit, w := rsRunF(in, k)
+			return J{"err": o["err"], "requeue": o["requeue"], "hit": hit, "writes": w, "baseWrites": baseWrites, "calls": calls}
+		})
+		c.Emit("fault", J{"w": in, "k": k}, impl)
+	}
 }
 
 func rsCase(c *Ctx, in rsWorld) {
@@ -567,6 +612,23 @@ func genRolloutWorld(c *Ctx) rsWorld {
 		}
 		steps = append(steps, st)
 	}
+	bigPlan := false
+	if !pcts && c.Rng.Intn(15) == 0 {
+		// focused stream: a large workload whose plan is written in absolute numbers that look like percentages
+		// (a last step of exactly / more than 100 pods out of 150 or 300 is NOT a full release)
+		bigPlan = true
+		R = []int{150, 300}[c.Rng.Intn(2)]
+		acc = 0
+		for i := range steps {
+			acc += 10 + c.Rng.Intn(60)
+			if i == len(steps)-1 {
+				acc = []int{100, 100, 120, R}[c.Rng.Intn(4)]
+			} else if acc >= 100 {
+				acc = 99
+			}
+			steps[i].Replicas = J{"i": acc}
+		}
+	}
 	ro := rsRollout{Style: style, Steps: steps, Paused: c.Rng.Intn(10) == 0, Disabled: c.Rng.Intn(14) == 0, Deleting: c.Rng.Intn(10) == 0,
 		HasFinalizer: c.Rng.Intn(8) != 0, HasTraffic: hasTraffic, DisableGen: c.Rng.Intn(8) == 0,
 		RollbackInBatch: c.Rng.Intn(10) == 0, Grace: []int{trLongGrace, trLongGrace, 0}[c.Rng.Intn(3)], CondAge: pickS(c, "elapsed", "elapsed", "fresh")}
@@ -599,6 +661,9 @@ func genRolloutWorld(c *Ctx) rsWorld {
 			s.NextIdx = pickInt(c, 0, -5, nsteps+1, nsteps+7) // illegal values a user can patch in
 		}
 		s.State = pickS(c, "init", "upgrade", "upgrade", "trafficRouting", "trafficRouting", "metricsAnalysis", "paused", "paused", "ready", "ready", "completed", "other")
+		if bigPlan && c.Rng.Intn(2) == 0 {
+			s.CurIdx, s.NextIdx, s.State = nsteps, -1, "paused"
+		}
 		s.FinStep = "empty"
 		if ro.Reason == "Finalising" || ro.Reason == "Cancelling" || ro.Phase == "Terminating" || ro.Phase == "Disabling" || c.Rng.Intn(10) == 0 {
 			s.FinStep = pickS(c, "empty", "resumeWorkload", "releaseWorkloadControl", "routeTrafficToStable", "restoreStableService", "removeCanaryService", "routeTrafficToNew", "end_", "other")
@@ -687,6 +752,35 @@ func genRolloutWorld(c *Ctx) rsWorld {
 		}
 		br = b
 	}
+	if c.Rng.Intn(14) == 0 && ro.Sub != nil && wl != nil && nsteps >= 2 {
+		// focused stream: the plan was edited while a step is in progress; the BatchRelease still carries the OLD plan, its
+		// partition is ahead of the batch it has reached (the Rollout raised it, the BatchRelease has not reconciled yet)
+		ro.Paused, ro.Disabled, ro.Deleting, ro.Phase, ro.Reason, ro.Term = false, false, false, "Progressing", "inRolling", "none"
+		ro.Sub.Hash, ro.Sub.FinStep, ro.Sub.CanaryRev = "differs", "empty", canaryRev
+		wl.Consistent, wl.InProgressAnno, wl.CanaryRev, wl.StableRev, wl.InRollback = true, true, canaryRev, stableRev, false
+		p := 1 + c.Rng.Intn(nsteps-1)
+		ro.Sub.CurIdx = 1 + c.Rng.Intn(nsteps)
+		ro.Sub.NextIdx = ro.Sub.CurIdx + 1
+		if ro.Sub.CurIdx >= nsteps {
+			ro.Sub.NextIdx = -1
+		}
+		b := &rsBR{RolloutID: canaryRev, SpecOther: true, HashSame: true, GenObserved: true, BatchReady: c.Rng.Intn(2) == 0, Partition: &p, CurrentBatch: c.Rng.Intn(p + 1)}
+		// the old plan: the same number of batches, larger (or equal) entries
+		for i, st := range steps {
+			e := st.Replicas
+			if v, ok := e["p"].(int); ok {
+				nv := v + []int{0, 10, 30, 50}[c.Rng.Intn(4)]*(i+1)/nsteps
+				if nv > 100 {
+					nv = 100
+				}
+				e = J{"p": nv}
+			} else if v, ok := e["i"].(int); ok {
+				e = J{"i": v + c.Rng.Intn(3)*(i+1)}
+			}
+			b.Batches = append(b.Batches, e)
+		}
+		br = b
+	}
 	n := trNet{StableExists: c.Rng.Intn(15) != 0, StableIngress: c.Rng.Intn(15) != 0}
 	if c.Rng.Intn(2) == 0 {
 		r := pickS(c, "v1", "v1", "v2")
@@ -723,11 +817,33 @@ func genRolloutWorld(c *Ctx) rsWorld {
 
 func runRolloutSM(c *Ctx) {
 	for i := 0; i < c.N; i++ {
-		rsCase(c, genRolloutWorld(c))
+		w := genRolloutWorld(c)
+		rsCase(c, w)
+		if i%6 == 0 {
+			rsFaults(c, w, c.Thorough() && i%30 == 0)
+		}
 	}
 }
 
 func replayRolloutSM(c *Ctx, op string, raw json.RawMessage) {
+	if op == "fault" {
+		var f struct {
+			W rsWorld `json:"w"`
+			K int     `json:"k"`
+		}
+		if err := json.Unmarshal(raw, &f); err != nil {
+			panic(err)
+		}
+		var calls int
+		var baseWrites []string
+		_ = guard(func() interface{} { _, calls, _, baseWrites = rsRunF(f.W, 0); return nil })
+		impl := guard(func() interface{} {
+			o, _, hit, w := rsRunF(f.W, f.K)
+			return J{"err": o["err"], "requeue": o["requeue"], "hit": hit, "writes": w, "baseWrites": baseWrites, "calls": calls}
+		})
+		c.Emit("fault", J{"w": f.W, "k": f.K}, impl)
+		return
+	}
 	var in rsWorld
 	if err := json.Unmarshal(raw, &in); err != nil {
 		panic(err)
